@@ -1,4 +1,6 @@
-"""setup: regenerate every Gen.v, build all .vo files, build every model runner."""
+"""setup: regenerate the Gen.v of every claimed property, build their .vo files (full coqc build via
+coq_makefile/make), build their model runners.  Properties not listed in tools/claimed.txt (still being
+built) are ignored."""
 from __future__ import annotations
 
 import importlib
@@ -6,11 +8,9 @@ import os
 import sys
 
 from . import pyextract as px
-from .vlib import COQ, NPROC, Check, Lock, sh
+from .vlib import COQ, NPROC, VERIF, Check, Lock, sh
 
-import glob
-
-PROPS = sorted(os.path.basename(f)[:-3].upper() for f in glob.glob(os.path.join(os.path.dirname(__file__), "c[0-9][0-9].py")))
+PROPS = sorted(open(os.path.join(VERIF, "tools", "claimed.txt")).read().split())
 
 
 def main() -> int:
@@ -23,16 +23,20 @@ def main() -> int:
             except px.Unsupported as e:
                 print(f"setup: translator for {pid} stopped: {e}")
                 rc = 1
+    targets = []
+    for pid in PROPS:
+        targets.append(f"{pid}/Props.vo")
+        if os.path.exists(os.path.join(COQ, pid, "Extract.v")):
+            targets.append(f"{pid}/Extract.vo")
     with Lock():
         sh(["sh", "./mkproject.sh"], cwd=COQ)
-        code, out, err = sh(["make", "-k", "-f", "Makefile.coq", f"-j{NPROC}"], cwd=COQ, timeout=3000)
-    print(out[-3000:])
-    if code != 0:
-        print(err[-6000:])
-        print("setup: coq build had failures (make -k); the checks of the affected properties will report them")
-        if not all(os.path.exists(os.path.join(COQ, "lib", f + ".vo")) for f in ("Bytes", "BytesFacts", "Utf8", "Utf8Facts", "ExtractBase")):
-            print("setup: FAILED (shared library did not build)")
-            return 1
+        code, out, err = sh(["make", "-k", "-f", "Makefile.coq", f"-j{NPROC}", *targets], cwd=COQ, timeout=3400)
+    print(out[-1500:])
+    missing = [t for t in targets if not os.path.exists(os.path.join(COQ, t))]
+    if code != 0 or missing:
+        print(err[-4000:])
+        print(f"setup: coq build failed for {missing or 'some targets'}")
+        rc = 1
     for pid in PROPS:
         if os.path.exists(os.path.join(COQ, pid, "driver.ml")):
             chk = Check(pid, "quick", 0)
